@@ -387,6 +387,17 @@ def mirror_measures(ctx, kind, o0, o1, perm, n, cid, case):
                               {**case, "orig": v0, "reversed": v1}, cid)
 
 
+def _leading_eigenvector_unique(A):
+    """An unconnected undirected graph whose largest adjacency eigenvalue is
+    simple by a wide margin (one component dominates): the leading
+    eigenvector is then as well defined as on a connected graph."""
+    A = np.asarray(A, dtype=float)
+    if len(A) < 3 or not np.array_equal(A, A.T):
+        return False
+    ev = np.linalg.eigvalsh(A)
+    return bool(ev[-1] - ev[-2] > 0.3 and ev[-1] + ev[0] > 0.3)
+
+
 def build_case(ctx, kind, r, small):
     """-> dict(o0 builder inputs) ; returns (make(perm) -> object, n, info)"""
     from pyunicorn.core import (Network, GeoNetwork, InteractingNetworks,
@@ -405,6 +416,8 @@ def build_case(ctx, kind, r, small):
         else:
             # two components (unreachable pairs inside and across groups)
             n1 = int(r.integers(2, n - 1))
+            if n % 2 == 0 and n >= 6 and r.random() < 0.5:
+                n1 = n // 2       # two components of the same size
             A = np.zeros((n, n), dtype=np.int8)
             A[:n1, :n1] = G.random_connected(r, n1, n1, directed=directed)
             A[n1:, n1:] = G.random_connected(r, n - n1, n - n1,
@@ -464,7 +477,9 @@ def build_case(ctx, kind, r, small):
             return o
         return make, n, {"edges": np.argwhere(A).tolist(), "weights": w,
                          "key": G.canon_key(A), "have_attr": W is not None,
-                         "connected": G.connected(A) and not directed}
+                         "connected": (G.connected(A) or
+                                       _leading_eigenvector_unique(A))
+                         and not directed}
     if kind == "ResNetwork":
         n = int(r.integers(3, min(nmax, 8) + 1))
         A = G.random_connected(r, n, n)
@@ -474,15 +489,29 @@ def build_case(ctx, kind, r, small):
         lat = np.round(r.uniform(0, 80, n))
         lon = np.round(r.uniform(-170, 170, n))
 
+        # the documented short form ResNetwork(resistances): the class then
+        # invents coordinates from the node index (no relabelling of
+        # anything, the geographic measures are left out) and uses unit node
+        # weights - every other measure moves with the nodes
+        no_grid = bool(r.random() < 0.3)
+        if no_grid:
+            ctx.count("resnetwork_without_grid")
+
         def make(p):
-            # (without an explicit grid ResNetwork invents coordinates from
-            #  the node index, which is not a relabelling of anything)
+            if no_grid:
+                return ResNetwork(R[np.ix_(p, p)].copy(), silence_level=3)
             g = GeoGrid(np.arange(2.), lat[p], lon[p], silence_level=3)
             return ResNetwork(R[np.ix_(p, p)].copy(), grid=g,
                               silence_level=3)
+        geo_words = ("distance", "area_weighted", "geographical", "awc",
+                     "connectivity_weighted")
         return make, n, {"edges": np.argwhere(A).tolist(), "key":
                          G.canon_key(A), "have_attr": False,
-                         "connected": True}
+                         "connected": True,
+                         "extra_skip": tuple(
+                             nm for nm in dir(ResNetwork)
+                             if any(wd in nm for wd in geo_words))
+                         if no_grid else ()}
     if kind == "ClimateNetwork":
         from pvm.gen.objects import sym_similarity
         n = int(r.integers(4, nmax + 1))
@@ -681,9 +710,11 @@ def run(ctx):
                                 {"kind": kind, "x": info["x"],
                                  "horizontal": info["horizontal"]})
             case = {"kind": kind, **{kk: vv for kk, vv in info.items()
-                                     if kk not in ("connected",)}}
+                                     if kk not in ("connected",
+                                                   "extra_skip")}}
             compare_objects(ctx, kind, o0, o1, p, n, cid, case,
                             info["have_attr"], pick=12,
+                            extra_skip=info.get("extra_skip", ()),
                             spectral_ok=info["connected"])
             if kind in ("Network", "InteractingNetworks", "GeoNetwork",
                         "VisibilityGraph", "RecurrenceNetwork"):
@@ -706,7 +737,8 @@ def run(ctx):
             with ctx.quiet():
                 o0 = make(np.arange(n))
             case = {"kind": kind, **{kk: vv for kk, vv in info.items()
-                                     if kk not in ("connected",)}}
+                                     if kk not in ("connected",
+                                                   "extra_skip")}}
             pl = perms_for(ctx, r, n, False)
             if info.get("mirror") and n > 1:
                 pl.append(np.arange(n)[::-1].copy())
@@ -724,6 +756,7 @@ def run(ctx):
                     mirror_measures(ctx, kind, o0, o1, p, n, cid, case)
                 compare_objects(ctx, kind, o0, o1, p, n, cid, case,
                                 info["have_attr"], pick=25,
+                                extra_skip=info.get("extra_skip", ()),
                                 spectral_ok=info["connected"])
                 if kind in ("Network", "InteractingNetworks", "GeoNetwork",
                             "VisibilityGraph", "RecurrenceNetwork"):
